@@ -103,7 +103,8 @@ impl Scenario for C09 {
             out.kind = "advance";
             out.accepted = true;
             w.set_time(w.now() + dt);
-            w.set_seq(w.seq() + 1);
+            // ledgers pass too (more than the minimum temporary-entry TTL)
+            w.set_seq(w.seq() + 20);
             m.now += dt;
             return;
         }
